@@ -364,11 +364,11 @@ def finding_key(info, fail):
         kinds = {}
         for x in o.get("xs", []):
             kinds.setdefault(GROUP_OF[h.pool[x]], set()).add(cvl.kind(canon[x]))
-        mixed = sorted(sorted(v) for v in kinds.values() if len(v) > 1)
+        mixed = sorted(set(k for v in kinds.values() if len(v) > 1 for k in v))
         name = c[3:] + (":" + o["fn"] if o.get("fn") else "")
         detail = "wrong-value" if st.get("o") == "ok" else str(cvl.outcome(st))
         if mixed:
-            return name_key(name, detail, mixed[0][:1], mixed[0][1:2])
+            return name_key(name, detail, mixed[:1], mixed[1:])
         return name_key(name, detail, sorted(set(cvl.kind(canon[x]) for x in o.get("xs", [])))[:3], [])
     return "%s:%s" % (o["ev"], c)
 
